@@ -693,6 +693,7 @@ class TmplStream(Stream):
     parallel = True
 
     def cases(self, ctx):
+        self.parallel = ctx.tier == "thorough"  # quick tier is a few seconds sequentially; forking 16 workers costs more
         rng = ctx.rng_for("tmpl")
         out = []
         n = ctx.scale(2500, 40000)
@@ -799,6 +800,7 @@ class BoolStream(Stream):
     parallel = True
 
     def cases(self, ctx):
+        self.parallel = ctx.tier == "thorough"  # quick tier is a few seconds sequentially; forking 16 workers costs more
         natoms = ctx.scale(2, 3)
         ops = ["and", "or", "==", "<", "contains"]
         out = []
@@ -868,6 +870,7 @@ class StrLitStream(Stream):
     parallel = True
 
     def cases(self, ctx):
+        self.parallel = ctx.tier == "thorough"  # quick tier is a few seconds sequentially; forking 16 workers costs more
         L = ctx.scale(4, 5)
         out = []
         for n in range(0, L + 1):
@@ -967,6 +970,7 @@ class PathStream(Stream):
     parallel = True
 
     def cases(self, ctx):
+        self.parallel = ctx.tier == "thorough"  # quick tier is a few seconds sequentially; forking 16 workers costs more
         out = []
         L = ctx.scale(3, 4)
         for n in range(1, L + 1):
@@ -1000,6 +1004,51 @@ class PathStream(Stream):
         return ["valid" if obs.get("valid") else "source-unparseable", "normalised" if obs.get("str") != case["src"] else "verbatim"]
 
 
+class PathTokStream(PathStream):
+    """Same paths: the real expression lexer's tokens for the printed path and the real Path.parse of them, against
+    the model's token printer (tokSegs) and token-level parser (parsePath) — the objects of theorem path_print_parse."""
+
+    name = "pathtok"
+
+    def impl(self, case):
+        from liquid.builtin.expressions import tokenize
+        from liquid.token import Token
+
+        try:
+            t = env().from_string(case["src"])
+            path = t.nodes[0].expression.left
+            if type(path).__name__ != "Path" or len(t.nodes) != 1:
+                return {"valid": False}
+        except Exception:
+            return {"valid": False}
+        text = str(path)
+        kinds = {"word": "word", "identstring": "identstring", "identindex": "identindex", "lbracket": "lbracket", "rbracket": "rbracket", "dot": "dot"}
+        toks = []
+        try:
+            for tok in tokenize(text, Token("expr", text, 0, text)):
+                k = kinds.get(tok.kind, "other")
+                toks.append([k, tok.value] if k in ("word", "identstring", "identindex") else k)
+            t2 = env().from_string("{{ " + text + " }}")
+            re = segs_json(t2.nodes[0].expression.left)
+        except Exception as e:
+            return {"valid": True, "segs": segs_json(path), "text": text, "toks": toks, "reparse": None, "error": type(e).__name__}
+        return {"valid": True, "segs": segs_json(path), "text": text, "toks": toks, "reparse": re}
+
+    def line_obs(self, case, obs):
+        return ["c04_path", obs["segs"]] if obs.get("valid") else None
+
+    def compare_view(self, case, obs):
+        return {"text": obs["text"], "toks": obs["toks"], "reparse": obs["reparse"]}
+
+    def oracle(self, case, obs):
+        if obs.get("valid") and obs["reparse"] != obs["segs"]:
+            return ("pathtok|segments-changed", f"{case['src']!r} -> {obs['text']!r} -> {obs['reparse']}")
+        return None
+
+    def tags(self, case, obs):
+        return ["valid" if obs.get("valid") else "not-a-single-path"]
+
+
 TOKS = ["and", "or", "not", "(", ")", "==", "<", "contains", "<>", ["atom", 0], ["atom", 1], ["atom", 2], ["atom", 0], ["atom", 1]]
 
 
@@ -1015,6 +1064,7 @@ class ParseStream(Stream):
     parallel = True
 
     def cases(self, ctx):
+        self.parallel = ctx.tier == "thorough"  # quick tier is a few seconds sequentially; forking 16 workers costs more
         rng = ctx.rng_for("parse")
         out = []
         for _ in range(ctx.scale(3000, 30000)):
@@ -1068,6 +1118,7 @@ KNOWN_SRCS = [
     "{{ nil }}",
     "{{ a | default: nil }}",
     "{% case a %}{% when 1, nil %}x{% endcase %}",
+    "{% case b %}{% when 1, nil %}x{% endcase %}",
     "{% raw %}{{ x }}{% endraw %}",
     "{% raw %}{% if a %}{% endraw %}",
     "{% raw %} {{ {% endraw %}",
@@ -1077,14 +1128,17 @@ KNOWN_SRCS = [
 ]
 
 
+KNOWN_DATA = [{"a": 1, "x": 3}, {"x": "v"}]
+
+
 class KnownStream(Stream):
     """Witnesses (and close variants) of the known findings; each carries exactly one listed feature."""
 
     name = "known"
 
     def cases(self, ctx):
-        rng = ctx.rng_for("known")
-        return [{"src": s, "datas": data_sets(rng, 2)} for s in KNOWN_SRCS]
+        # fixed data: the signature of a witness must not depend on the seed
+        return [{"src": s, "datas": KNOWN_DATA} for s in KNOWN_SRCS]
 
     def impl(self, case):
         return roundtrip(case["src"], case["datas"])
@@ -1145,4 +1199,4 @@ class RegressStream(KnownStream):
 
 
 def streams(ctx):
-    return [BoolStream(), StrLitStream(), PathStream(), ParseStream(), TmplStream(), KnownStream(), RegressStream()]
+    return [BoolStream(), StrLitStream(), PathStream(), PathTokStream(), ParseStream(), TmplStream(), KnownStream(), RegressStream()]
